@@ -273,3 +273,120 @@ func DescHas(sub string) func(string, ssa.Value) bool {
 func DescSuffix(suf string) func(string, ssa.Value) bool {
 	return func(d string, _ ssa.Value) bool { return strings.HasSuffix(d, suf) }
 }
+
+// ---- a small prover over the must-facts -----------------------------------------------------
+
+// edgeFacts returns the facts that hold when control flows from pred to succ.
+func (fs *Facts) edgeFacts(pred, succ *ssa.BasicBlock) FactSet {
+	o := fs.in[pred].clone()
+	if o == nil {
+		o = FactSet{}
+	}
+	if len(pred.Instrs) > 0 {
+		if ifi, ok := pred.Instrs[len(pred.Instrs)-1].(*ssa.If); ok && pred.Succs[0] != pred.Succs[1] {
+			if pred.Succs[0] == succ {
+				for _, f := range condFacts(ifi.Cond, true) {
+					o.add(f)
+				}
+			} else {
+				for _, f := range condFacts(ifi.Cond, false) {
+					o.add(f)
+				}
+			}
+		}
+	}
+	return o
+}
+
+func constCmp(op string, x, y ssa.Value) (bool, bool) {
+	a, ok1 := ConstInt(x)
+	b, ok2 := ConstInt(y)
+	if !ok1 || !ok2 {
+		return false, false
+	}
+	switch op {
+	case "lt":
+		return a < b, true
+	case "le":
+		return a <= b, true
+	case "eq":
+		return a == b, true
+	case "ne":
+		return a != b, true
+	}
+	return false, false
+}
+
+func holdsIn(s FactSet, op string, x, y ssa.Value) bool {
+	x, y = unwrapCmp(x), unwrapCmp(y)
+	if r, ok := constCmp(op, x, y); ok {
+		return r
+	}
+	if x == y && (op == "le" || op == "eq") {
+		return true
+	}
+	has := func(o string, a, b ssa.Value) bool { _, ok := s[Fact{o, a, b}.key()]; return ok }
+	switch op {
+	case "lt":
+		return has("lt", x, y)
+	case "le":
+		return has("lt", x, y) || has("le", x, y) || has("eq", x, y) || has("eq", y, x)
+	case "eq":
+		return has("eq", x, y) || has("eq", y, x)
+	case "ne":
+		return has("ne", x, y) || has("ne", y, x) || has("lt", x, y) || has("lt", y, x)
+	}
+	return false
+}
+
+// Prove tries to establish op(x, y) at instruction `at`: directly from the must-facts there, or by
+// decomposing x and/or y when they are phis: the relation must then hold for the corresponding
+// incoming values on every incoming edge of the phi's block (using the facts of that edge).
+// SSA values are immutable, so a relation proved at the phi's block holds wherever both are in scope.
+func (fs *Facts) Prove(op string, x, y ssa.Value, at ssa.Instruction) bool {
+	return fs.prove(op, x, y, fs.At(at), 0)
+}
+
+func (fs *Facts) prove(op string, x, y ssa.Value, ctx FactSet, depth int) bool {
+	x, y = unwrapCmp(x), unwrapCmp(y)
+	if holdsIn(ctx, op, x, y) {
+		return true
+	}
+	if depth > 6 {
+		return false
+	}
+	px, okx := x.(*ssa.Phi)
+	py, oky := y.(*ssa.Phi)
+	var blk *ssa.BasicBlock
+	switch {
+	case okx && oky && px.Block() == py.Block():
+		blk = px.Block()
+	case okx:
+		blk = px.Block()
+		oky = false
+	case oky:
+		blk = py.Block()
+	default:
+		return false
+	}
+	for i, pred := range blk.Preds {
+		xi, yi := x, y
+		if okx && px.Block() == blk {
+			xi = px.Edges[i]
+		}
+		if oky && py.Block() == blk {
+			yi = py.Edges[i]
+		}
+		// a back edge whose incoming value is the phi itself is trivially fine for le/eq
+		ectx := fs.edgeFacts(pred, blk)
+		if !fs.prove(op, xi, yi, ectx, depth+1) {
+			return false
+		}
+	}
+	return true
+}
+
+// ProveOnEdge establishes op(x,y) using the facts that hold when control flows pred -> succ.
+func (fs *Facts) ProveOnEdge(op string, x, y ssa.Value, pred, succ *ssa.BasicBlock) bool {
+	return fs.prove(op, x, y, fs.edgeFacts(pred, succ), 0)
+}
